@@ -69,6 +69,10 @@ def _wrappings(parts):
         # the first key is selected directly and again inside a later fragment (merged): its position must not move
         yield "dup-in-spread", "mutation { %s ...Rest } fragment Rest on Mutation { %s %s }" % (parts[0], " ".join(parts[1:]), parts[0])
         yield "dup-in-inline", "mutation { %s ... on Mutation { %s %s } }" % (parts[0], " ".join(parts[1:]), parts[0])
+        # a skipped top-level field between the others: it must not run at all (no side effect)
+        yield "skip-between", "mutation ($t: Boolean = true) { %s zz: m3 @skip(if: $t) %s }" % (parts[0], " ".join(parts[1:]))
+        # the operation is one of several in the document, selected by name; the decoy lists the fields reversed
+        yield "named-operation", "mutation Decoy { %s } mutation Wanted { %s } query Other { a }" % (" ".join(reversed(parts)), plain)
 
 
 def _assignments(coords, tier, k):
@@ -106,7 +110,14 @@ def cases(tier):
                     if wname != "plain":
                         assigns = assigns[1:2] if tier == "quick" else assigns
                     for a in assigns:
-                        yield {"query": query, "keys": keys, "custom": dict(zip(coords, a)), "sdl": sdl, "wrapping": wname}
+                        if wname == "skip-between" and sdl != "full":
+                            continue
+                        c = {"query": query, "keys": keys, "custom": dict(zip(coords, a)), "sdl": sdl, "wrapping": wname}
+                        if wname == "named-operation":
+                            c["operation_name"] = "Wanted"
+                        if wname == "skip-between":
+                            c["custom"]["Mutation.m3"] = c["custom"].get("Mutation.m3", "async")
+                        yield c
 
 
 def _key(obs):
@@ -128,6 +139,8 @@ def monitor(keys, world):
             if first_j < last_i:
                 return "overlap(%s,%s): %s at #%d before %s at #%d" % (
                     order[i], order[j], pos[order[j]][0][1], first_j, pos[order[i]][-1][1], last_i)
+    if "zz" in pos and "zz" not in keys:
+        return "skipped-field-ran: %s" % (pos["zz"][0][1],)
     # every invoke has a finish
     inv = [e[1] for e in world.log if e[0] == "invoke"]
     fin = [e[1] for e in world.log if e[0] == "finish"]
@@ -156,7 +169,7 @@ def check_case(case, st):
 
     b = BOUNDS[st.tier]
     out = []
-    base = {"query": case["query"], "custom": case["custom"], "sdl": case.get("sdl", "full")}
+    base = {"query": case["query"], "custom": case["custom"], "sdl": case.get("sdl", "full"), "operation_name": case.get("operation_name")}
     paths, ndef = S.invoked_paths(base)
     # top-level fields are serialised, so only the results of one sub-tree are ever pending together:
     # every completion order is affordable
